@@ -294,11 +294,11 @@ impl InsertionHeuristic {
             }
         }
 
-        finalize_insertion_ctx(&mut insertion_ctx);
-
-        // NOTE a feature can add an empty route on failure notification (e.g. tour duration limit) or
-        // remove the last (marker) job from the tour on solution state acceptance
+        // NOTE a feature can add an empty route on failure notification (e.g. tour duration limit):
+        // remove it before solution state is accepted, so that state reflects actual routes
         insertion_ctx.solution.remove_empty_routes();
+
+        finalize_insertion_ctx(&mut insertion_ctx);
 
         insertion_ctx
     }
